@@ -194,7 +194,7 @@ def snippet(z, /, t, n):
     if isinstance(t, u.Quantity):
         t = (t * z.sample_rate).to_value(u.one)
 
-    if (t < 0) or (len(z) < t + n):
+    if (t < 0) or (len(z) - n < t):
         raise ValueError("Requested snippet goes out of bounds.")
 
     if (i := int(t)) < t:
